@@ -3,6 +3,7 @@ import Librfn.Spec.Tree
 import Librfn.Lemmas.Bintree
 import Librfn.Lemmas.BintreeMorris
 import Librfn.Lemmas.BintreePost
+import Librfn.Lemmas.BintreeFree
 /-!
 # C11 — tree iterators visit in the promised order, restore the tree, and free safely
 
@@ -13,8 +14,6 @@ are structural inductions (lemmas in `Librfn.Lemmas.Bintree*`), not enumerations
 -/
 namespace Librfn.C11
 open Librfn.Model.Bintree Librfn.Spec Librfn.Spec.Tree Librfn.Lemmas.Bintree
-
-theorem rootK_none (t : Tree) : rootK t none = root t := by cases t <;> rfl
 
 theorem inRun_none (tg : Bool) (g m f : Nat) (h : Heap) : inRun tg g (m + 1) (f + 1) h none = .ok ([], h) := by
   simp [inRun, inOrderLoop]
@@ -213,6 +212,83 @@ theorem post_order_each_node_once (isList : Nat → Bool) (t : Tree) (h : Heap) 
   · rw [map_fst_postorderP]; exact nodup_postorder t hd
   · rw [map_fst_postorderP]; intro i; exact mem_postorder t i
 
+/-! ## bintree_free -/
+
+/-- **the parent's link is patched before the parent is reached**: with every node of `t` tagged and `y` the
+    first post-order node (a leaf) with parent `p`, deallocating `y` and running the patch of `bintree_free`
+    on the live parent yields a heap that holds `t` without `y` — no link to `y` is left, the rest of `t` is
+    still fully tagged, nothing outside `t` changes, and `y` is dead. -/
+theorem free_patches_parent_first (t : Tree) (prev : Ptr) (h0 : Heap) (y : Nat) (p : Ptr)
+    (ht : AllTagged h0 t) (hd : Distinct t) (hs : 2 ≤ size t) (hy : (postorderP prev t)[0]? = some (y, p)) :
+    ∃ h2, patchParent (kill h0 y) p y = .ok h2 ∧ AllTagged h2 (dropFirst t) ∧
+      (∀ i, i ∉ inorder t → h2 i = h0 i) ∧ h2 y = none :=
+  free_step t prev h0 y p ht hd hs hy
+
+/-- **`bintree_free` deallocates children first, each node once, and never touches a dead node**
+    (`free_children_first_once_no_uaf`).  On a heap holding `t` at `p` (distinct ids), with a deallocator
+    that really frees, `bintree_free` does not fail — in the model every read or write of a deallocated node
+    is an error result, so success means there is no use after free and no double free —, the deallocator
+    is called on exactly `postorder t` (children before parents, every node once), afterwards every node
+    of `t` is dead and every other cell of the heap is unchanged. -/
+theorem free_children_first_once_no_uaf (isList : Nat → Bool) (t : Tree) (h : Heap) (p : Ptr) (it0 : Iter) (g : Nat)
+    (hr : Repr h t p) (hd : Distinct t) (hg : 2 * size t + 2 ≤ g) :
+    free isList g h it0 p = .ok (killAll h (inorder t), postorder t) := by
+  obtain ⟨rfl, hr⟩ := hr
+  obtain ⟨it2, htl, _, _⟩ := tagging_pass_tags_every_node isList t h it0 g hr hd hg
+  exact free_spec isList g t h it0 hr hd hg ⟨it2, htl⟩
+
+/-- **`bintree_free_left` frees the left sub-tree and clears the caller's link**: if `x` is live with an
+    intact left sub-tree `l` (not containing `x`), the deallocator is called on `postorder l`, every node of
+    `l` is dead afterwards, `x->left` is NULL (untagged), `x->right` and the rest of the heap are unchanged. -/
+theorem free_left_clears_link (isList : Nat → Bool) (l : Tree) (h : Heap) (x : Nat) (rp : Ptr) (it0 : Iter) (g : Nat)
+    (hx : h x = some ⟨root l, false, rp⟩) (hr : ReprK (fun _ => false) h l none) (hxl : x ∉ inorder l)
+    (hd : Distinct l) (hg : 2 * size l + 2 ≤ g) :
+    ∃ h', freeLeft isList g h it0 x = .ok (h', postorder l) ∧ h' x = some ⟨none, false, rp⟩ ∧
+      (∀ i, i ∈ inorder l → h' i = none) ∧ (∀ i, i ≠ x → i ∉ inorder l → h' i = h i) := by
+  cases hl : l with
+  | nil =>
+    subst hl
+    refine ⟨h, by simp [freeLeft, hx, root, postorder], by simpa [root] using hx, by simp [inorder], fun _ _ _ => rfl⟩
+  | node a y b =>
+    rw [← hl]
+    have hfree := free_children_first_once_no_uaf isList l h (root l) it0 g ⟨rfl, hr⟩ hd hg
+    have hroot : root l = some y := by rw [hl]; rfl
+    refine ⟨setLeftRaw (killAll h (inorder l)) x none false, ?_, ?_, ?_, ?_⟩
+    · simp only [freeLeft, hx, hroot]
+      rw [← hroot, hfree]
+      simp [killAll, hxl, hx]
+    · simp [setLeftRaw, upd, killAll, hxl, hx]
+    · intro i hi
+      have : i ≠ x := fun e => hxl (e ▸ hi)
+      simp [setLeftRaw, upd, killAll, this, hi]
+    · intro i hix hil
+      simp [setLeftRaw, upd, killAll, hix, hil]
+
+/-- **`bintree_free_right` frees the right sub-tree and clears the caller's link** -/
+theorem free_right_clears_link (isList : Nat → Bool) (r : Tree) (h : Heap) (x : Nat) (lp : Ptr) (tg : Bool) (it0 : Iter)
+    (g : Nat) (hx : h x = some ⟨lp, tg, root r⟩) (hr : ReprK (fun _ => false) h r none) (hxr : x ∉ inorder r)
+    (hd : Distinct r) (hg : 2 * size r + 2 ≤ g) :
+    ∃ h', freeRight isList g h it0 x = .ok (h', postorder r) ∧ h' x = some ⟨lp, tg, none⟩ ∧
+      (∀ i, i ∈ inorder r → h' i = none) ∧ (∀ i, i ≠ x → i ∉ inorder r → h' i = h i) := by
+  cases hl : r with
+  | nil =>
+    subst hl
+    refine ⟨h, by simp [freeRight, hx, root, postorder], by simpa [root] using hx, by simp [inorder], fun _ _ _ => rfl⟩
+  | node a y b =>
+    rw [← hl]
+    have hfree := free_children_first_once_no_uaf isList r h (root r) it0 g ⟨rfl, hr⟩ hd hg
+    have hroot : root r = some y := by rw [hl]; rfl
+    refine ⟨setRight (killAll h (inorder r)) x none, ?_, ?_, ?_, ?_⟩
+    · simp only [freeRight, hx, hroot]
+      rw [← hroot, hfree]
+      simp [killAll, hxr, hx]
+    · simp [setRight, upd, killAll, hxr, hx]
+    · intro i hi
+      have : i ≠ x := fun e => hxr (e ▸ hi)
+      simp [setRight, upd, killAll, this, hi]
+    · intro i hix hil
+      simp [setRight, upd, killAll, hix, hil]
+
 /-- non-vacuity: the 3-node tree `1 ← 0 → 2` held by a concrete heap -/
 def exHeap : Heap := fun i =>
   if i = 0 then some ⟨some 1, false, some 2⟩ else if i = 1 ∨ i = 2 then some ⟨none, false, none⟩ else none
@@ -234,5 +310,11 @@ example : (iterateAll (fun _ => false) 8 .postOrder exHeap default (some 0)).toO
 /-- non-vacuity of the visited-prefix invariant: the example tree after the tagging pass and one visit -/
 example : ReprV (setTag (tagAll true exHeap (inorder exTree)) 1 false) exTree 1 := by
   simp [ReprV, exHeap, exTree, root, size, setTag, upd, tagAll, inorder]
+
+example : (free (fun _ => false) 8 exHeap default (some 0)).toOption.map (fun r => (r.2, r.1 0, r.1 1, r.1 2, r.1 3))
+    = some ([1, 2, 0], none, none, none, none) := by decide
+
+example : (freeLeft (fun _ => false) 8 exHeap default 0).toOption.map (fun r => (r.2, r.1 0, r.1 1))
+    = some ([1], some ⟨none, false, some 2⟩, none) := by decide
 
 end Librfn.C11
